@@ -51,7 +51,8 @@ FuncPool(i) == <<
   GFunc("priv", "f1", <<Nth(AttrPool, i)>>, <<GSelfC>>, Nth(TypePool, i)),
   GFunc("pub", "f2", <<Nth(AttrPool, i), Nth(AttrPool, i + 3)>>, <<GSelfM, GArg("a", Nth(TypePool, i + 1)), GArg("b", Nth(TypePool, i + 2))>>, TNone),
   GFunc("pub", "r#match", <<>>, <<GArg("r#in", Nth(TypePool, i + 4))>>, Nth(TypePool, i + 5)),
-  GFunc("priv", "_hidden", <<Nth(AttrPool, i + 1)>>, <<GSelfM>>, TNone) >>
+  (* the same attribute twice in a row, and two equal doc lines: nothing is merged *)
+  GFunc("priv", "_hidden", <<Nth(AttrPool, i + 1), Nth(AttrPool, i + 1), AAs("doc", EStr(" same")), AAs("doc", EStr(" same"))>>, <<GSelfM>>, TNone) >>
 
 GField(vis, name, ty, attrs) == [k |-> "field", vis |-> vis, name |-> name, ty |-> ty, attrs |-> attrs, funcs |-> <<>>]
 GVft(attrs, funcs) == [k |-> "vftable", vis |-> "priv", name |-> "", ty |-> TNone, attrs |-> attrs, funcs |-> funcs]
